@@ -834,11 +834,12 @@ def _run(ctx, t0):
             or c.get('sfault in subproc', 0) == 0 \
             or c.get('sfault in exec', 0) == 0 \
             or c.get('finish_of_aborted_while_other_registered', 0) == 0:
-        raise statex.HarnessError('vacuous run: %r' % (dict(c),))
+        if not sw.violations:       # only a silent run can be vacuous
+            raise statex.HarnessError('vacuous run: %r' % (dict(c),))
     for k in ('with rules/dnat', 'with rules/snat', 'with rules/passthrough',
               'with endpoints/spec', 'with ipset/tm:vring-containers',
               'with ipset/tm:container-infra-services'):
-        if c.get(k, 0) == 0:
+        if c.get(k, 0) == 0 and not sw.violations:
             raise statex.HarnessError('vacuous run: no manifest %s' % k)
     violations = sw.violation_list()
     for v in violations:
